@@ -535,3 +535,860 @@ func callSitesOf(root, callee *ssa.Function) []*ssa.Call {
 	visit(root)
 	return out
 }
+
+// ---- eofpending (C04): at end of input the pending line is looked at before a different error is raised ----
+
+// ruleEOFPending: fasta.Reader.Read and fastq.Reader.Read read physical lines
+// with ReadLine and collect the fragments of an over-long line in an
+// accumulator. When ReadLine reports io.EOF the accumulator may still hold
+// the fragments of a final line that has no terminator (a last line whose
+// length is a multiple of the buffer size arrives as full fragments followed
+// by a bare io.EOF). Whether there is such a line can only be known by looking
+// at the accumulator. Along every path from the ReadLine call that is
+// consistent with err == io.EOF, a return that hands back an error other than
+// that io.EOF (or nil) must therefore have consulted the accumulator; one that
+// has not refuses, or truncates, a file merely because it lacks the final
+// newline.
+func ruleEOFPending(c *Ctx, rule string, shorts ...string) {
+	for _, call := range lineCalls(c, shorts, "ReadLine") {
+		fn := call.Parent()
+		c.Funcs[funcName(fn)] = true
+		key := funcName(fn) + "/ReadLine/pending-line-consulted-at-end-of-input"
+		buff, errv := extractOf(call, 0), extractOf(call, 2)
+		if buff == nil || errv == nil {
+			c.und(rule, key, call.Pos(), "the results of ReadLine are not taken apart")
+			continue
+		}
+		// the family of values of the accumulator: append(X, buff...) and what flows from and into X
+		family := map[ssa.Value]bool{}
+		var appendCall *ssa.Call
+		for _, b := range fn.Blocks {
+			for _, ins := range b.Instrs {
+				if ap := builtinCall(valueOf(ins), "append"); ap != nil && len(ap.Call.Args) == 2 && ap.Call.Args[1] == ssa.Value(buff) {
+					appendCall = ap
+				}
+			}
+		}
+		if appendCall == nil {
+			c.und(rule, key, call.Pos(), "no accumulator of line fragments (append(line, buff...)) found")
+			continue
+		}
+		family[appendCall] = true
+		family[appendCall.Call.Args[0]] = true
+		for changed := true; changed; {
+			changed = false
+			for _, b := range fn.Blocks {
+				for _, ins := range b.Instrs {
+					phi, ok := ins.(*ssa.Phi)
+					if !ok {
+						break
+					}
+					in := family[phi]
+					for _, e := range phi.Edges {
+						if family[e] && !in {
+							family[phi], in, changed = true, true, true
+						}
+					}
+					if in {
+						for _, e := range phi.Edges {
+							if _, isPhi := e.(*ssa.Phi); isPhi && !family[e] {
+								family[e], changed = true, true
+							}
+						}
+					}
+				}
+			}
+		}
+		// err may live in a variable
+		var errAlloc ssa.Value
+		for _, r := range *errv.Referrers() {
+			if st, ok := r.(*ssa.Store); ok && st.Val == ssa.Value(errv) {
+				errAlloc = st.Addr
+			}
+		}
+		type state struct {
+			b         *ssa.BasicBlock
+			consulted bool
+			errValid  bool
+		}
+		seen := map[state]int{}
+		var bad *ssa.Return
+		budget := 6000
+		var walk func(b, from *ssa.BasicBlock, idx int, consulted, errValid bool, alias map[ssa.Value]bool)
+		walk = func(b, from *ssa.BasicBlock, idx int, consulted, errValid bool, alias map[ssa.Value]bool) {
+			if budget--; budget < 0 || bad != nil {
+				return
+			}
+			isErr := func(v ssa.Value) bool {
+				if alias[v] {
+					return true
+				}
+				if u, ok := v.(*ssa.UnOp); ok && u.Op == token.MUL && errAlloc != nil && u.X == errAlloc && errValid {
+					return true
+				}
+				return false
+			}
+			if idx == 0 {
+				k := state{b, consulted, errValid}
+				if seen[k] > 1 {
+					return
+				}
+				seen[k]++
+				na := map[ssa.Value]bool{}
+				for v := range alias {
+					na[v] = true
+				}
+				alias = na
+				for pi, p := range b.Preds {
+					if p != from {
+						continue
+					}
+					for _, ins := range b.Instrs {
+						phi, ok := ins.(*ssa.Phi)
+						if !ok {
+							break
+						}
+						if isErr(phi.Edges[pi]) {
+							alias[phi] = true
+						} else {
+							delete(alias, phi)
+						}
+					}
+				}
+			}
+			for i := idx; i < len(b.Instrs); i++ {
+				ins := b.Instrs[i]
+				if ins == ssa.Instruction(call) {
+					return // the next read: a new round
+				}
+				switch x := ins.(type) {
+				case *ssa.Phi:
+					continue
+				case *ssa.Store:
+					if errAlloc != nil && x.Addr == errAlloc {
+						errValid = isErr(x.Val)
+					}
+				case *ssa.Panic:
+					return
+				case *ssa.Return:
+					res := effectiveResults(x)
+					for _, r := range res {
+						if !types.Identical(r.Type(), types.Universe.Lookup("error").Type()) {
+							continue
+						}
+						if isNilConst(r) || isErr(r) || consulted {
+							continue
+						}
+						// an error that is not the io.EOF of this read, raised without a look at the pending line
+						if isGlobalLoad(r, "io", "EOF") {
+							continue
+						}
+						switch r.(type) {
+						case *ssa.UnOp, *ssa.MakeInterface, *ssa.Call:
+							if u, ok := r.(*ssa.UnOp); ok {
+								if _, isG := u.X.(*ssa.Global); !isG {
+									continue // a stored error (the record's own), not one made for this event
+								}
+							}
+							bad = x
+						}
+					}
+					return
+				case *ssa.If:
+					take := []int{0, 1}
+					if bo, ok := x.Cond.(*ssa.BinOp); ok && (bo.Op == token.EQL || bo.Op == token.NEQ) {
+						var other ssa.Value
+						if isErr(bo.X) {
+							other = bo.Y
+						} else if isErr(bo.Y) {
+							other = bo.X
+						}
+						if other != nil {
+							switch {
+							case isNilConst(other):
+								take = []int{map[bool]int{true: 0, false: 1}[bo.Op == token.NEQ]}
+							case isGlobalLoad(other, "io", "EOF"):
+								take = []int{map[bool]int{true: 0, false: 1}[bo.Op == token.EQL]}
+							}
+						}
+					}
+					for _, e := range take {
+						walk(b.Succs[e], b, 0, consulted, errValid, alias)
+					}
+					return
+				case *ssa.Jump:
+					walk(b.Succs[0], b, 0, consulted, errValid, alias)
+					return
+				}
+				// a look at the accumulator
+				if ins != ssa.Instruction(appendCall) {
+					for _, op := range ins.Operands(nil) {
+						if *op != nil && family[*op] {
+							consulted = true
+						}
+					}
+				}
+			}
+		}
+		start := instrIndex(call.Block(), call) + 1
+		walk(call.Block(), nil, start, false, true, map[ssa.Value]bool{errv: true})
+		if bad != nil {
+			c.bad(rule, key, bad.Pos(), "on a path from ReadLine that is taken when the read reports io.EOF, the return at "+c.pos(bad.Pos())+" hands back an error of its own without the accumulator of line fragments having been looked at: an unterminated last line that filled the buffer exactly is pending there, so a file is refused (or its last record lost) only because it lacks the final newline")
+		} else {
+			c.ok(rule, key, call.Pos(), "at end of input every return of an error other than that io.EOF comes after a look at the pending line")
+		}
+	}
+}
+
+func valueOf(ins ssa.Instruction) ssa.Value {
+	v, _ := ins.(ssa.Value)
+	return v
+}
+
+// ---- headeragree (C01): the '+' line repeats the '@' line ----
+
+// ruleHeaderAgree: with QID set the FASTQ writer repeats the record's label on
+// the '+' line, and the reader accepts a '+' line with text only if that text
+// equals the whole '@' line after its first byte (identifier and description).
+// The two lines are written by one helper called twice; the two calls must
+// pass the same things apart from the prefix byte, or the writer's own output
+// is refused by the reader for every record that has a description.
+func ruleHeaderAgree(c *Ctx, rule string) {
+	write := c.fn("io/seqio/fastq", "(*Writer).Write")
+	c.Funcs[funcName(write)] = true
+	key := funcName(write) + "/plus-line-repeats-the-label"
+	type site struct {
+		call *ssa.Call
+		pos  int
+	}
+	at, plus := map[*ssa.Function][]site{}, map[*ssa.Function][]site{}
+	for _, f := range privateReach(write) {
+		for _, b := range f.Blocks {
+			for _, ins := range b.Instrs {
+				call, ok := ins.(*ssa.Call)
+				if !ok {
+					continue
+				}
+				g := call.Call.StaticCallee()
+				if g == nil || g.Pkg != write.Pkg {
+					continue
+				}
+				for i, a := range call.Call.Args {
+					if k, ok := constIntVal(a); ok && isIntegral(a.Type()) {
+						switch k {
+						case '@':
+							at[g] = append(at[g], site{call, i})
+						case '+':
+							plus[g] = append(plus[g], site{call, i})
+						}
+					}
+				}
+			}
+		}
+	}
+	n := 0
+	var bad *ssa.Call
+	why := ""
+	for g, as := range at {
+		for _, a := range as {
+			for _, p := range plus[g] {
+				if a.pos != p.pos || len(a.call.Call.Args) != len(p.call.Call.Args) {
+					continue
+				}
+				n++
+				for i := range a.call.Call.Args {
+					if i == a.pos {
+						continue
+					}
+					if !sameArgument(a.call.Call.Args[i], p.call.Call.Args[i], 0) {
+						bad = p.call
+						why = "argument " + itoa(i) + " is " + symName(p.call.Call.Args[i], nil) + " on the '+' line and " + symName(a.call.Call.Args[i], nil) + " on the '@' line"
+					}
+				}
+			}
+		}
+	}
+	switch {
+	case n == 0:
+		c.und(rule, key, write.Pos(), "no helper called once with '@' and once with '+' found in the writer")
+	case bad != nil:
+		c.bad(rule, key, bad.Pos(), "the '+' line is not written from the same things as the '@' line ("+why+"): the reader compares the text after '+' with the whole '@' line, so the writer's own output is refused whenever the two differ (a record with a description)")
+	default:
+		c.ok(rule, key, write.Pos(), "the helper that writes the label line is given the same arguments for '@' and for '+'")
+	}
+}
+
+// sameArgument: the two values are one value, equal constants, or the same
+// method or function applied to the same things (s.Name() twice).
+func sameArgument(a, b ssa.Value, depth int) bool {
+	if a == b {
+		return true
+	}
+	if depth > 4 {
+		return false
+	}
+	switch x := a.(type) {
+	case *ssa.Const:
+		y, ok := b.(*ssa.Const)
+		if !ok {
+			return false
+		}
+		if x.Value == nil || y.Value == nil {
+			return x.Value == nil && y.Value == nil
+		}
+		return x.Value.ExactString() == y.Value.ExactString()
+	case *ssa.Call:
+		y, ok := b.(*ssa.Call)
+		if !ok || len(x.Call.Args) != len(y.Call.Args) {
+			return false
+		}
+		if x.Call.IsInvoke() != y.Call.IsInvoke() {
+			return false
+		}
+		if x.Call.IsInvoke() {
+			if x.Call.Method != y.Call.Method || !sameArgument(x.Call.Value, y.Call.Value, depth+1) {
+				return false
+			}
+		} else if x.Call.StaticCallee() == nil || x.Call.StaticCallee() != y.Call.StaticCallee() {
+			return false
+		}
+		for i := range x.Call.Args {
+			if !sameArgument(x.Call.Args[i], y.Call.Args[i], depth+1) {
+				return false
+			}
+		}
+		return true
+	case *ssa.MakeInterface:
+		y, ok := b.(*ssa.MakeInterface)
+		return ok && sameArgument(x.X, y.X, depth+1)
+	case *ssa.ChangeInterface:
+		y, ok := b.(*ssa.ChangeInterface)
+		return ok && sameArgument(x.X, y.X, depth+1)
+	case *ssa.Convert:
+		y, ok := b.(*ssa.Convert)
+		return ok && sameArgument(x.X, y.X, depth+1)
+	}
+	return sameRead(a, b, 0)
+}
+
+// ---- rangeinclusive (C06, C07): Truncate accepts the sequence's own bounds ----
+
+// ruleRangeInclusive: Truncate(dst, src, start, end) takes a half-open range of
+// positions; start == src.Start() and end == src.End() are the sequence's own
+// bounds and select all of it. Every test in Truncate that rejects the range by
+// comparing one of the two position arguments with src.Start() or src.End()
+// must therefore be strict in the direction it rejects (start < Start(),
+// end > End(), ...). A non-strict test refuses a range that ends exactly at
+// the end of the sequence: Multi.Subseq and Multi.Truncate then fail whenever
+// the range ends where some row ends.
+func ruleRangeInclusive(c *Ctx, rule string) {
+	fn := c.fn("seq/sequtils", "Truncate")
+	c.Funcs[funcName(fn)] = true
+	if len(fn.Params) < 4 {
+		c.und(rule, "sequtils.Truncate/range-tests-strict", fn.Pos(), "Truncate does not have the parameters dst, src, start, end")
+		return
+	}
+	src := fn.Params[1]
+	pos := map[ssa.Value]string{fn.Params[2]: "start", fn.Params[3]: "end"}
+	isBound := func(v ssa.Value) (string, bool) {
+		call, ok := v.(*ssa.Call)
+		if !ok || !call.Call.IsInvoke() || call.Call.Value != ssa.Value(src) {
+			return "", false
+		}
+		switch call.Call.Method.Name() {
+		case "Start", "End":
+			return call.Call.Method.Name() + "()", true
+		}
+		return "", false
+	}
+	n := 0
+	for _, b := range fn.Blocks {
+		ifi, ok := b.Instrs[len(b.Instrs)-1].(*ssa.If)
+		if !ok {
+			continue
+		}
+		bo, ok := ifi.Cond.(*ssa.BinOp)
+		if !ok {
+			continue
+		}
+		var p, bd string
+		op := bo.Op
+		if name, ok := pos[bo.X]; ok {
+			if bn, ok := isBound(bo.Y); ok {
+				p, bd = name, bn
+			}
+		} else if name, ok := pos[bo.Y]; ok {
+			if bn, ok := isBound(bo.X); ok {
+				p, bd = name, bn
+				op = flipOp(op)
+			}
+		}
+		if p == "" {
+			continue
+		}
+		for e := 0; e < 2; e++ {
+			if !rejectsFrom(b, b.Succs[e]) {
+				continue
+			}
+			eff := op
+			if e == 1 {
+				eff = negateOp(op)
+			}
+			n++
+			key := "sequtils.Truncate/range-test-strict#" + itoa(n)
+			switch eff {
+			case token.LSS, token.GTR:
+				c.ok(rule, key, bo.Pos(), "the range is rejected when "+p+" "+eff.String()+" "+bd+": the bound itself is accepted")
+			case token.LEQ, token.GEQ:
+				c.bad(rule, key, bo.Pos(), "the range is rejected when "+p+" "+eff.String()+" src."+bd+": a range that reaches exactly the sequence's own bound is refused, so truncating to the whole sequence, or an alignment to a range that ends where one of its rows ends, fails with 'index out of range'")
+			default:
+				c.ok(rule, key, bo.Pos(), "not an ordering test")
+			}
+		}
+	}
+	if n == 0 {
+		c.und(rule, "sequtils.Truncate/range-tests-strict", fn.Pos(), "no rejection comparing start or end with src.Start() or src.End() found")
+	}
+}
+
+// ---- kmerspace (C10): positions of the scanned sequence and subscripts of a cut of it are not mixed ----
+
+// ruleKmerSpace: ForEachKmerOf reports positions in the sequence it is given
+// and takes its range as subscripts of that sequence. If it cuts the range out
+// first (letters := s.Seq[start:end]) the subscripts of the cut are smaller by
+// start. Every integer of the function is classed as a subscript of the whole
+// sequence (the parameters start and end, anything that subscripts s.Seq
+// itself), a subscript of a cut with a low bound (anything that subscripts
+// it), or neutral (constants, k, lengths, differences of two of one kind);
+// sums with neutrals keep the class and a cut's subscript plus a whole-sequence
+// subscript (the low bound) is a whole-sequence subscript again. No comparison
+// relates the two kinds, no variable is both, and the position handed to the
+// callback is a subscript of the whole sequence. Otherwise the watermark that
+// keeps windows off an invalid letter is compared with positions that are off
+// by start, and windows overlapping the letter are reported for every range
+// that does not begin at 0.
+func ruleKmerSpace(c *Ctx, rule string) {
+	fn := c.fn("index/kmerindex", "(*Index).ForEachKmerOf")
+	c.Funcs[funcName(fn)] = true
+	const (
+		bot = iota
+		neutral
+		whole
+		cut
+		mixed
+	)
+	name := map[int]string{neutral: "neutral", whole: "a subscript of the whole sequence", cut: "a subscript of the cut", mixed: "both"}
+	join := func(a, b int) int {
+		switch {
+		case a == bot || a == neutral && b != bot:
+			return b
+		case b == bot || b == neutral:
+			return a
+		case a == b:
+			return a
+		}
+		return mixed
+	}
+	// the sequence's letters: loads of the Seq field of the sequence parameter
+	isSeqField := func(v ssa.Value) bool {
+		ld, ok := v.(*ssa.UnOp)
+		if !ok || ld.Op != token.MUL {
+			return false
+		}
+		fa, ok := ld.X.(*ssa.FieldAddr)
+		return ok && structFieldName(fa.X.Type(), fa.Field) == "Seq"
+	}
+	cls := map[ssa.Value]int{}
+	anchor := map[ssa.Value]int{}
+	var all []ssa.Value
+	fns := append([]*ssa.Function{fn}, fn.AnonFuncs...)
+	for _, f := range fns {
+		for _, b := range f.Blocks {
+			for _, ins := range b.Instrs {
+				if v, ok := ins.(ssa.Value); ok && isIntegral(v.Type()) {
+					all = append(all, v)
+				}
+				if ia, ok := ins.(*ssa.IndexAddr); ok {
+					switch x := ia.X.(type) {
+					case *ssa.Slice:
+						if isSeqField(x.X) {
+							if k, isK := constIntVal(x.Low); x.Low != nil && !(isK && k == 0) {
+								anchor[ia.Index] = join(anchor[ia.Index], cut)
+							} else {
+								anchor[ia.Index] = join(anchor[ia.Index], whole)
+							}
+						}
+					default:
+						if isSeqField(ia.X) {
+							anchor[ia.Index] = join(anchor[ia.Index], whole)
+						}
+					}
+				}
+			}
+		}
+	}
+	for _, p := range fn.Params[1:] {
+		if isIntegral(p.Type()) {
+			cls[p] = whole
+		}
+	}
+	get := func(v ssa.Value) int {
+		if _, ok := v.(*ssa.Const); ok {
+			return neutral
+		}
+		return join(cls[v], anchor[v])
+	}
+	for changed, rounds := true, 0; changed && rounds < 50; rounds++ {
+		changed = false
+		for _, v := range all {
+			nv := bot
+			switch x := v.(type) {
+			case *ssa.Convert:
+				nv = get(x.X)
+			case *ssa.Phi:
+				for _, e := range x.Edges {
+					nv = join(nv, get(e))
+				}
+			case *ssa.BinOp:
+				a, b := get(x.X), get(x.Y)
+				switch x.Op {
+				case token.ADD:
+					switch {
+					case a == bot || b == bot:
+					case a == neutral:
+						nv = b
+					case b == neutral:
+						nv = a
+					case a == cut && b == whole, a == whole && b == cut:
+						nv = whole // a subscript of the cut plus its low bound
+					default:
+						nv = mixed
+					}
+				case token.SUB:
+					switch {
+					case a == bot || b == bot:
+					case b == neutral:
+						nv = a
+					case a == b:
+						nv = neutral
+					case a == whole && b == cut:
+						nv = whole
+					case a == whole && b == whole:
+						nv = neutral
+					default:
+						nv = bot
+					}
+				case token.AND, token.SHL, token.SHR, token.OR, token.MUL, token.QUO, token.REM:
+					nv = neutral
+				}
+			case *ssa.UnOp:
+				if x.Op == token.MUL {
+					if _, ok := x.X.(*ssa.FieldAddr); ok {
+						nv = neutral // k, kMask
+					}
+					if fv, ok := x.X.(*ssa.FreeVar); ok {
+						// a captured variable: what the enclosing function holds
+						for i, f := range fv.Parent().FreeVars {
+							if f != fv {
+								continue
+							}
+							for _, b := range fv.Parent().Parent().Blocks {
+								for _, ins := range b.Instrs {
+									if mc, ok := ins.(*ssa.MakeClosure); ok && mc.Fn == ssa.Value(fv.Parent()) {
+										if al, ok := mc.Bindings[i].(*ssa.Alloc); ok {
+											for _, r := range *al.Referrers() {
+												if st, ok := r.(*ssa.Store); ok && st.Addr == ssa.Value(al) {
+													nv = join(nv, get(st.Val))
+												}
+											}
+										}
+									}
+								}
+							}
+						}
+					}
+					if al, ok := x.X.(*ssa.Alloc); ok {
+						for _, r := range *al.Referrers() {
+							if st, ok := r.(*ssa.Store); ok && st.Addr == ssa.Value(al) {
+								nv = join(nv, get(st.Val))
+							}
+						}
+					}
+				}
+			case *ssa.Call:
+				if bi, ok := x.Call.Value.(*ssa.Builtin); ok && (bi.Name() == "len" || bi.Name() == "cap") {
+					nv = neutral
+				} else if x.Call.IsInvoke() || x.Call.StaticCallee() != nil {
+					if nm := calleeName(&x.Call); nm == "Len" {
+						nv = neutral
+					}
+				}
+			}
+			if nv != bot && join(cls[v], nv) != cls[v] {
+				cls[v] = join(cls[v], nv)
+				changed = true
+			}
+		}
+	}
+	n := 0
+	keys := map[string]int{}
+	for _, f := range fns {
+		for _, b := range f.Blocks {
+			for _, ins := range b.Instrs {
+				switch x := ins.(type) {
+				case *ssa.BinOp:
+					switch x.Op {
+					case token.LSS, token.LEQ, token.GTR, token.GEQ, token.EQL, token.NEQ:
+					default:
+						continue
+					}
+					if !isIntegral(x.X.Type()) {
+						continue
+					}
+					a, b := get(x.X), get(x.Y)
+					if (a != whole && a != cut && a != mixed) || (b != whole && b != cut && b != mixed) {
+						continue
+					}
+					n++
+					key := numberedKey(keys, funcName(fn)+"/comparison-in-one-coordinate-system")
+					if a == b && a != mixed {
+						c.ok(rule, key, x.Pos(), "both sides are "+name[a])
+					} else {
+						c.bad(rule, key, x.Pos(), symName(x.X, nil)+" is "+name[a]+" and "+symName(x.Y, nil)+" is "+name[b]+": the two differ by the low bound of the cut, so the test (the watermark that keeps windows off an invalid letter, a loop bound) is wrong for every range that does not begin at 0")
+					}
+				case *ssa.Call:
+					// the callback: its position argument
+					if x.Call.IsInvoke() || x.Call.StaticCallee() != nil {
+						continue
+					}
+					if _, isB := x.Call.Value.(*ssa.Builtin); isB {
+						continue
+					}
+					for _, a := range x.Call.Args {
+						if !isIntegral(a.Type()) {
+							continue
+						}
+						if _, isConv := a.(*ssa.Convert); isConv {
+							continue // the k-mer word
+						}
+						ca := get(a)
+						if ca == bot || ca == neutral {
+							continue
+						}
+						n++
+						key := numberedKey(keys, funcName(fn)+"/reported-position")
+						if ca == whole {
+							c.ok(rule, key, x.Pos(), "the position handed to the callback is a subscript of the whole sequence")
+						} else {
+							c.bad(rule, key, x.Pos(), "the position handed to the callback is "+name[ca]+": it is off by the start of the range")
+						}
+					}
+				}
+			}
+		}
+	}
+	if n == 0 {
+		c.und(rule, funcName(fn)+"/coordinates", fn.Pos(), "no comparison or reported position could be classified")
+	}
+}
+
+func calleeName(cc *ssa.CallCommon) string {
+	if cc.IsInvoke() {
+		return cc.Method.Name()
+	}
+	if g := cc.StaticCallee(); g != nil {
+		return g.Name()
+	}
+	return ""
+}
+
+// ---- marklast (C17): the complement table is marked after it is filled ----
+
+// ruleMarkLast: NewPairing fills the table form of the complement by copying
+// the pairs into it and then sets the high bit on the entries of letters that
+// have no complement. A copy (or any other whole-table write) that can run
+// after a mark erases the marks: the table then says every unpaired letter is
+// its own complement while the method says it has none.
+func ruleMarkLast(c *Ctx, rule string) {
+	root := c.fn("alphabet", "NewPairing")
+	c.Funcs[funcName(root)] = true
+	key := funcName(root) + "/table-filled-before-it-is-marked"
+	isTable := func(v ssa.Value) bool {
+		fa, ok := v.(*ssa.FieldAddr)
+		return ok && structFieldName(fa.X.Type(), fa.Field) == "complements"
+	}
+	var marks []*ssa.Store
+	var fills []ssa.Instruction
+	for _, fn := range privateReach(root) {
+		for _, b := range fn.Blocks {
+			for _, ins := range b.Instrs {
+				switch x := ins.(type) {
+				case *ssa.Store:
+					ia, ok := x.Addr.(*ssa.IndexAddr)
+					if !ok || !isTable(ia.X) {
+						if isTable(x.Addr) {
+							fills = append(fills, x) // the table assigned as a whole
+						}
+						continue
+					}
+					if setsHighBit(x.Val, 0) {
+						marks = append(marks, x)
+					}
+				case *ssa.Call:
+					if cp := builtinCall(x, "copy"); cp != nil {
+						if sl, ok := cp.Call.Args[0].(*ssa.Slice); ok && isTable(sl.X) {
+							fills = append(fills, x)
+						}
+					}
+				}
+			}
+		}
+	}
+	if len(marks) == 0 {
+		c.und(rule, key, root.Pos(), "no store that sets the high bit of a table entry found")
+		return
+	}
+	for _, m := range marks {
+		for _, f := range fills {
+			if f.Parent() == m.Parent() && reachesInstr(m, f) {
+				c.bad(rule, key, f.Pos(), "the complement table is written as a whole at "+c.pos(f.Pos())+" after entries have been marked as having no complement ("+c.pos(m.Pos())+"): the marks are overwritten, so ComplementTable() gives every unpaired letter as its own complement while Complement() reports that it has none")
+				return
+			}
+		}
+	}
+	c.ok(rule, key, root.Pos(), "no whole-table write can follow a mark")
+}
+
+// ---- chunkclamp (C19): the last chunk ends where the input ends ----
+
+// ruleChunkClamp: Map cuts its input into chunks with set.Slice(lo, hi). The
+// chunk size does not divide every length, so hi has to be clamped to
+// set.Len(): the smaller of the chunk's nominal end and the length (a min
+// call, or a value chosen under a comparison with Len()). An unclamped end
+// reaches past the input on the last chunk — into spare capacity, or a panic
+// in the unjoined producer goroutine.
+func ruleChunkClamp(c *Ctx, rule string) {
+	fn := c.fn("concurrent", "Map")
+	c.Funcs[funcName(fn)] = true
+	isLen := func(v ssa.Value) bool {
+		call, ok := v.(*ssa.Call)
+		return ok && call.Call.IsInvoke() && call.Call.Method.Name() == "Len"
+	}
+	var clamped func(v ssa.Value, blk *ssa.BasicBlock, d int) bool
+	clamped = func(v ssa.Value, blk *ssa.BasicBlock, d int) bool {
+		if d > 5 {
+			return false
+		}
+		if isLen(v) {
+			return true
+		}
+		switch x := v.(type) {
+		case *ssa.Call:
+			nm := calleeName(&x.Call)
+			if bi, ok := x.Call.Value.(*ssa.Builtin); ok {
+				nm = bi.Name()
+			}
+			if nm == "Min" || nm == "min" || nm == "MinInt" {
+				for _, a := range x.Call.Args {
+					if isLen(a) {
+						return true
+					}
+					// a variadic helper: the arguments are stored into the array behind the slice
+					if sl, ok := a.(*ssa.Slice); ok {
+						if al, ok := sl.X.(*ssa.Alloc); ok {
+							for _, r := range *al.Referrers() {
+								if ia, ok := r.(*ssa.IndexAddr); ok {
+									for _, rr := range *ia.Referrers() {
+										if st, ok := rr.(*ssa.Store); ok && isLen(st.Val) {
+											return true
+										}
+									}
+								}
+							}
+						}
+					}
+				}
+			}
+		case *ssa.Phi:
+			// end := lo+size; if end > Len() { end = Len() }
+			hasLen := false
+			for _, e := range x.Edges {
+				if isLen(e) {
+					hasLen = true
+				}
+			}
+			return hasLen
+		case *ssa.Convert:
+			return clamped(x.X, blk, d+1)
+		}
+		// under a test that found it no larger than the length
+		for _, bf := range branchesAt(blk) {
+			var op token.Token
+			switch {
+			case bf.cond.X == v && isLen(bf.cond.Y):
+				op = effectiveOp(bf, true)
+			case bf.cond.Y == v && isLen(bf.cond.X):
+				op = effectiveOp(bf, false)
+			default:
+				continue
+			}
+			if op == token.LEQ || op == token.LSS {
+				return true
+			}
+		}
+		return false
+	}
+	n := 0
+	var visit func(f *ssa.Function)
+	visit = func(f *ssa.Function) {
+		for _, b := range f.Blocks {
+			for _, ins := range b.Instrs {
+				call, ok := ins.(*ssa.Call)
+				if !ok || !call.Call.IsInvoke() || call.Call.Method.Name() != "Slice" || len(call.Call.Args) != 2 {
+					continue
+				}
+				n++
+				key := funcName(fn) + "/chunk-end-clamped-to-the-length#" + itoa(n)
+				if clamped(call.Call.Args[1], b, 0) {
+					c.ok(rule, key, call.Pos(), "the end of the chunk is the smaller of its nominal end and the length of the input")
+				} else {
+					c.bad(rule, key, call.Pos(), "the end of the chunk ("+symName(call.Call.Args[1], nil)+") is not clamped to set.Len(): when the chunk size does not divide the length the last chunk reaches past the input, so the chunks no longer partition it (or the producer goroutine panics with a slice bound out of range)")
+				}
+			}
+		}
+		for _, an := range f.AnonFuncs {
+			visit(an)
+		}
+	}
+	visit(fn)
+	if n == 0 {
+		c.und(rule, funcName(fn)+"/chunk-end-clamped-to-the-length", fn.Pos(), "no Slice call on the input found in Map")
+	}
+}
+
+// setsHighBit: the value is x | 0x80, or chosen between a letter and its marked form (one loop that copies and marks).
+func setsHighBit(v ssa.Value, d int) bool {
+	if d > 3 {
+		return false
+	}
+	switch x := v.(type) {
+	case *ssa.BinOp:
+		if x.Op == token.OR {
+			if k, isK := constIntVal(x.Y); isK && k == 0x80 {
+				return true
+			}
+			if k, isK := constIntVal(x.X); isK && k == 0x80 {
+				return true
+			}
+		}
+	case *ssa.Phi:
+		for _, e := range x.Edges {
+			if setsHighBit(e, d+1) {
+				return true
+			}
+		}
+	case *ssa.Convert:
+		return setsHighBit(x.X, d+1)
+	}
+	return false
+}
